@@ -87,6 +87,15 @@ func checkC06(c caseC06) (sig, msg string) {
 			return
 		}
 		for i, g := range gots {
+			if g.Err != nil && g.Panic == nil {
+				// an error value is a result too: it still says what it said
+				now := ""
+				guard.Call(func() { now = g.Err.Error() })
+				if now != g.ErrText {
+					sig, msg = "earlier-error-changed", fmt.Sprintf("the error returned by call %d (frame %s) changed while later frames of the stream were read:\n at return: %s\n now:       %s", i, hx(c.Frames[i]), g.ErrText, now)
+					return
+				}
+			}
 			if !g.OK || g.P == nil {
 				continue
 			}
@@ -166,7 +175,7 @@ func TestC06(t *testing.T) {
 		return
 	}
 
-	r.Rapid(t, "sequences", vf.N(5000, 1000000), func(t *rapid.T) {
+	r.Rapid(t, "sequences", vf.N(15000, 1000000), func(t *rapid.T) {
 		n := rapid.IntRange(1, 8).Draw(t, "nframes")
 		var c caseC06
 		kinds := make([]string, n)
